@@ -182,6 +182,10 @@ impl Fired {
 
 struct BudgetStop;
 
+/// Beyond this many container constructions in one execution the schedule is no longer recorded
+/// (replay falls back to the default policy there); the step budget ends such an execution.
+const MAX_RECORDED_ORDERS: usize = 50_000;
+
 pub struct EnvState {
     given: Vector,
     next_order: usize,
@@ -212,11 +216,26 @@ impl Env for Handle {
         } else {
             Pol::Identity
         };
-        s.consumed.orders.push(pol);
-        s.order_sites.push(site);
+        // constructing a container is an interaction with the environment like any other: it
+        // counts against the step budget (a loop that only builds containers must not run free),
+        // and the recorded schedule is capped so that such a loop cannot exhaust memory either
+        if s.consumed.orders.len() < MAX_RECORDED_ORDERS {
+            s.consumed.orders.push(pol);
+            s.order_sites.push(site);
+        }
         s.fired.orders[pol.kind()] += 1;
         s.log.str(site);
         s.log.u64(pol.kind() as u64);
+        s.ticks_total += 1;
+        if !s.stopped {
+            s.op_ticks += 1;
+            if s.op_ticks > s.op_budget {
+                s.stopped = true;
+                s.fired.budget_exhausted += 1;
+                drop(s);
+                std::panic::panic_any(BudgetStop);
+            }
+        }
         pol.to_policy()
     }
 
